@@ -458,6 +458,15 @@ class _Abort(Exception):
     pass
 
 
+def _folded_value(r):
+    """value of an RTLIR node without a Python ast: a Number, or a Bits constant folded by the generation pass
+    (SizeCast of a Number)"""
+    v = getattr(r, "value", 0)
+    while not isinstance(v, int) and hasattr(v, "value"):
+        v = v.value
+    return v if isinstance(v, int) else 0
+
+
 def _list_bits(v):
     """total number of bits of a (nested) list of Bits / bitstruct values; None if it holds anything else"""
     from pymtl3.datatypes import Bits, is_bitstruct_inst
@@ -545,7 +554,7 @@ class Runtime:
                 return False
             ccode = self._compiled(n["c"] - 1)
             try:
-                taken = bool(eval(ccode, env)) if ccode is not None else bool(self.c.rn[n["c"] - 1].value)  # noqa: S307
+                taken = bool(eval(ccode, env)) if ccode is not None else bool(_folded_value(self.c.rn[n["c"] - 1]))  # noqa: S307
             except Exception:                # noqa: BLE001
                 return False
             for br, live in ((n["a"], taken), (n["b"], not taken)):
@@ -580,9 +589,12 @@ class Runtime:
             kind = st[0]
             if kind == "assign":
                 _, r, v, tids, aids = st
-                ok = self.eval_node(v, env)
+                # `target @= value` / `target <<= value` are augmented assignments: Python loads the target
+                # (its object, index and field sub-expressions) before it evaluates the value
+                ok = True
                 for t in tids:
-                    ok = self.eval_node(t, env) and ok
+                    ok = ok and self.eval_node(t, env)
+                ok = ok and self.eval_node(v, env)
                 if not ok:
                     raise _Abort()
                 m = ast.Module(body=[r.ast], type_ignores=[])
@@ -601,7 +613,7 @@ class Runtime:
                     raise _Abort()
                 code = self._compiled(c - 1)
                 try:
-                    taken = bool(eval(code, env)) if code is not None else False      # noqa: S307
+                    taken = bool(eval(code, env)) if code is not None else bool(_folded_value(self.c.rn[c - 1]))      # noqa: S307
                 except Exception as e:       # noqa: BLE001
                     if self.raised is None:
                         self.raised = e
@@ -615,7 +627,7 @@ class Runtime:
                         raise _Abort()
                     code = self._compiled(nid - 1)
                     if code is None:
-                        vals.append(int(self.c.rn[nid - 1].value))
+                        vals.append(int(_folded_value(self.c.rn[nid - 1])))
                     else:
                         vals.append(int(eval(code, env)))             # noqa: S307
                 if vals[2] == 0:
